@@ -6,6 +6,7 @@ EXTENDS Integers, Sequences, TLC, Json, IOUtils, FiniteSets
 Trace == JsonDeserialize(IOEnv.TRACE_FILE)
 VARIABLES i, bad
 Failing(e) == (IF e.outcome = "error" THEN {"InternalError"} ELSE {})
+         \cup (IF e.outcome \notin {"accepted", "rejected", "error"} \/ e.verdict \notin {"accept", "reject"} THEN {"Malformed"} ELSE {})
          \cup (IF e.verdict = "reject" /\ e.outcome = "accepted" THEN {"SilentlyAccepted"} ELSE {})
          \cup (IF e.verdict = "accept" /\ e.outcome = "rejected" THEN {"ValidRejected"} ELSE {})
          \cup (IF e.verdict = "accept" /\ e.outcome = "accepted" /\ ~e.runnable THEN {"NotRunnable"} ELSE {})
